@@ -552,3 +552,82 @@ mod pure_hosts {
         assert!(ok0 && ok1 && ok2);
     }
 }
+
+// ---------- whole host functions WITH continuation arguments (rules R9 + R11) ----------
+// Continuations are distinguishable marker values (R11 lets the real slice patterns accept them), so what is proved is the real
+// function from argument destructuring to the selected continuation: positions, order, arity, kernel, selection.
+#[cfg(kani)]
+mod branch_hosts {
+    use super::*;
+    macro_rules! call {
+        ($f:ident, $args:expr) => {{
+            let mut input = std::io::empty();
+            let mut output = std::io::sink();
+            let mut host = HostRuntime;
+            $f($args, &mut input, &mut output, &[], &mut host)
+        }};
+    }
+    /// what the resulting computation does: Force(marker m) applied to k arguments -> (m, first applied argument if any)
+    fn forced(c: &Computation) -> Option<i64> {
+        match c {
+            | Computation::Force(Force(v)) => match v.as_ref() {
+                | Value::SemValue(SemValue::Literal(Literal::Integer(IntegerLiteral::Int64(m)))) => Some(*m),
+                | _ => None,
+            },
+            | _ => None,
+        }
+    }
+    fn selected(r: &Result<Computation, i32>) -> Option<(i64, usize)> {
+        // loop-free: a continuation is applied to at most two arguments
+        let Ok(c) = r.as_ref() else { return None };
+        match c {
+            | Computation::VApp(App(b1, _)) => match b1.as_ref() {
+                | Computation::VApp(App(b2, _)) => forced(b2.as_ref()).map(|m| (m, 2)),
+                | other => forced(other).map(|m| (m, 1)),
+            },
+            | other => forced(other).map(|m| (m, 0)),
+        }
+    }
+    fn outer_arg_char(r: &Result<Computation, i32>) -> Option<char> {
+        match r { Ok(Computation::VApp(App(_, a))) => match a.as_ref() { Value::SemValue(SemValue::Literal(Literal::Char(c))) => Some(*c), _ => None }, _ => None }
+    }
+    // whole integer_branch / float_branch / str_eq_branch / bytes_to_str_branch were tried with marker continuations as well: CBMC does not
+    // finish (20 min; `Branch::select` clones through a pointer chosen by a symbolic condition). Their comparison dispatch, kernels and
+    // `Branch::select` are proved separately.
+
+    /// whole str_get_branch, BOUNDED string family, fully symbolic Int64 index: in range -> when_some (4th argument) applied to the
+    /// scalar at that position; otherwise (negative, too large) -> when_none (3rd argument); never fails
+    fn check_get(s: &str, scalars: &[char]) {
+        let i: i64 = kani::any();
+        let args = [SemValue::Literal(Literal::String(Utf8String::from(s))), SemValue::Literal(Literal::Integer(IntegerLiteral::Int64(i))), marker(10), marker(11)];
+        let r = call!(str_get_branch, &args);
+        let (got, ch) = (selected(&r), outer_arg_char(&r));
+        core::mem::forget(r); core::mem::forget(args);
+        if i >= 0 && (i as u128) < scalars.len() as u128 { assert!(got == Some((11, 1)) && ch == Some(scalars[i as usize])); } else { assert!(got == Some((10, 0))); }
+    }
+    #[kani::proof] #[kani::unwind(13)] fn str_get_branch_whole_mixed() { check_get("a\u{e9}\u{20ac}\u{1f600}", &['a', '\u{e9}', '\u{20ac}', '\u{1f600}']) }
+    #[kani::proof] #[kani::unwind(13)] fn str_get_branch_whole_empty() { check_get("", &[]) }
+
+    /// whole str_split_at_branch: 0 <= i <= n -> when_some applied to TWO strings; otherwise when_none
+    #[kani::proof]
+    #[kani::unwind(13)]
+    fn str_split_at_branch_whole() {
+        let i: i64 = kani::any();
+        let args = [SemValue::Literal(Literal::String(Utf8String::from("a\u{e9}\u{20ac}\u{1f600}"))), SemValue::Literal(Literal::Integer(IntegerLiteral::Int64(i))), marker(10), marker(11)];
+        let r = call!(str_split_at_branch, &args);
+        let got = selected(&r);
+        core::mem::forget(r); core::mem::forget(args);
+        assert!(got == Some(if i >= 0 && i <= 4 { (11, 2) } else { (10, 0) }));
+    }
+    /// whole char_from_codepoint_branch over all i64: scalar value -> when_some (3rd) applied to that character; else when_none (2nd)
+    #[kani::proof]
+    fn char_from_codepoint_branch_whole() {
+        let cp: i64 = kani::any();
+        let args = [SemValue::Literal(Literal::Integer(IntegerLiteral::Int64(cp))), marker(10), marker(11)];
+        let r = call!(char_from_codepoint_branch, &args);
+        let (got, ch) = (selected(&r), outer_arg_char(&r));
+        core::mem::forget(r); core::mem::forget(args);
+        let scalar = (0..=0x10FFFF).contains(&cp) && !(0xD800..=0xDFFF).contains(&cp);
+        if scalar { assert!(got == Some((11, 1)) && ch.map(|c| c as u32 as i64) == Some(cp)); } else { assert!(got == Some((10, 0))); }
+    }
+}
